@@ -12,7 +12,7 @@ if go test -vet=off -count=1 -run "$run" $pkg >/tmp/sv.$$.1 2>&1; then echo "dem
 rm $dest
 git apply -3 $seed/patch.diff 2>/dev/null || { echo "patch does not apply: BAD"; exit 1; }
 go build ./... || { echo "build fails: BAD"; exit 1; }
-if go test -vet=off -count=1 $pkg "$@" >/tmp/sv.$$.2 2>&1; then echo "existing tests pass with patch: OK"; else echo "existing tests FAIL with patch: BAD"; grep -v "^ok" /tmp/sv.$$.2 | tail; fi
+if go test -vet=off -count=1 -timeout 90m $pkg "$@" >/tmp/sv.$$.2 2>&1; then echo "existing tests pass with patch: OK"; else echo "existing tests FAIL with patch: BAD"; grep -v "^ok" /tmp/sv.$$.2 | tail; fi
 cp $seed/demo_test.go $dest
 if go test -vet=off -count=1 -run "$run" $pkg >/tmp/sv.$$.3 2>&1; then echo "demo passes with patch: BAD"; else echo "demo fails with patch: OK"; fi
 rm -f /tmp/sv.$$.*
